@@ -299,8 +299,8 @@ class DecHooks(Hooks):
 def fold_tables(ctx):
     """ranges of the folded symbol tables (E5) used as facts about table look-ups"""
     fo = ctx.fold
-    br = fo.global_value("selfies.grammar_rules", "_PROCESS_BRANCH_CACHE")
-    rg = fo.global_value("selfies.grammar_rules", "_PROCESS_RING_CACHE")
+    br = __import__("rules.symlang", fromlist=["x"]).symbol_table(ctx, "branch")
+    rg = __import__("rules.symlang", fromlist=["x"]).symbol_table(ctx, "ring")
     if not br or not rg:
         raise AnalysisError("branch/ring tables fold to empty")
     def rng(vals):
